@@ -1,4 +1,4 @@
-HOOK_COMMITS = ["193d56e"]
+HOOK_COMMITS = ["193d56e", "90ea831"]
 NOTES = ("Model-based verification with explicit TLA+ specifications (spec/*.tla). TLC decides each property on the "
          "specification (exhaustive small scope + seeded simulation) and emits cases/behaviours that Go drivers "
          "(harness/, built with -tags verif against /repo's working tree) replay into the real seq-db code; recorded "
@@ -48,5 +48,10 @@ CHECKS = {
         "text": "WritePath.tla models the active fraction's write path at the grain of its file operations (mutex, docs write, fsync, meta write with ext1/ext2, fsync, unlock, ack), crashes that keep the synced prefix plus any prefix of the unsynced suffix, and Replay; TLC checks NoForeignBytes, AckedDurable, AlwaysComesUp and the action property AckOnlyDurable exhaustively. Every crash/restart/ingest history of the scope is replayed on a real store (crash images cut byte-exactly from what the real write path wrote), and concurrent real executions recorded through the verif hooks are validated event by event against WritePathTrace.tla (with a corrupted-trace self-test).",
         "note": "Trusted: TLC, the crash model (a crash keeps the fsynced prefix and an arbitrary prefix of later writes of each file), the kernel's fsync. Scope: 3 bulks (thorough 4 in the design check), <=2 (thorough 3) crashes, one active fraction; torn lengths sampled from 6 byte classes per case. Two defects of the pinned tree were found this way and repaired (fix: 9622524).",
         "technique": "TLA+ state machine of the write path model-checked by TLC; behaviours replayed as crash/restart histories on the real store; hook-recorded traces validated against the spec",
+    },
+    "C16": {
+        "text": "ProxyRead.tla models a proxy read as a fault scenario (topology, per-host search behaviour, per-source fetch-stream behaviour) with transcriptions of searchShard/searchStores/Search, MergeQPRs/paginateIDs and the merged fetch iterators, and a property-level reference; TLC checks Honest, ColdWhenOld, AllUpIsComplete, FetchIsGreedy and RetentionHonest on every scenario of the scope and emits the SET of allowed outcomes per scenario; the driver replays every scenario into the real search.Ingestor over scripted StoreApiClient fakes (a subsample through proxyapi over localhost gRPC, and with a real hot/cold store behind the ingestor) and requires the observed outcome to be a member of the allowed set.",
+        "note": "Trusted: TLC; stores are scripted fakes except 288 real-store cases; exhaustive up to 2x2 hot + 2x2 cold, 3x3 by seeded simulation; racing shard answers are nudged (odd/even shards slow), not forced - soundness rests on Allowed being a set; total/histogram/aggregation merging out of scope. The pinned tree violated the property (fix: 026e845).",
+        "technique": "TLA+ transcription + reference (set of allowed outcomes) checked by TLC, scenarios replayed into the real proxy ingestor over scripted store fakes",
     },
 }
